@@ -87,7 +87,7 @@ type stepObs struct {
 
 var peers = []int{1, 2, 3}
 
-func runCase(c *vh.Ctx, t *testing.T, keys *scx.Keys, dataDir string, cs *caseSpec) (obs []stepObs, panicked string) {
+func runCase(c *vh.Ctx, t *testing.T, keys *scx.Keys, dataDir string, cs *caseSpec) (obs []stepObs, startNs int64, panicked string) {
 	keys.ResetCase()
 	synctest.Test(t, func(t *testing.T) {
 		panicked = vh.Recover(func() {
@@ -106,6 +106,7 @@ func runCase(c *vh.Ctx, t *testing.T, keys *scx.Keys, dataDir string, cs *caseSp
 			if cs.Signing {
 				cfg.Management.SigningPublicKey = hex.EncodeToString(keys.Pub)
 			}
+			startNs = time.Now().UnixNano() // the flooder's cleanup loop ticks every SeenCacheTTL/2 from here
 			a, err := agent.New(cfg)
 			if err != nil {
 				panic(err)
@@ -135,6 +136,7 @@ func runCase(c *vh.Ctx, t *testing.T, keys *scx.Keys, dataDir string, cs *caseSp
 				fs := &cs.Frames[i]
 				if fs.AdvanceMs > 0 {
 					time.Sleep(time.Duration(fs.AdvanceMs) * time.Millisecond)
+					synctest.Wait() // a cleanup pass due at this very instant runs before the frame is handed in
 				}
 				now := time.Now()
 				var fr *protocol.Frame
@@ -354,7 +356,7 @@ func TestVerif(t *testing.T) {
 
 	var coq []string
 	do := func(cs *caseSpec) {
-		obs, p := runCase(c, t, keys, dataDir, cs)
+		obs, startNs, p := runCase(c, t, keys, dataDir, cs)
 		if p != "" {
 			c.Fail("panic", p, cs)
 			return
@@ -381,7 +383,7 @@ func TestVerif(t *testing.T) {
 			steps = append(steps, fmt.Sprintf("mkstep %s %s %s (mkobs %s %s %s %s %s %s)", vh.CoqZ(o.NowNs), vh.CoqN(uint64(cs.Frames[i].From)), coqFrame(&cs.Frames[i]),
 				vh.CoqN(uint64(o.State)), vh.CoqN(uint64(o.SleepCb)), vh.CoqN(uint64(o.WakeCb)), scx.CoqNs(o.FwdSleep), scx.CoqNs(o.FwdWake), scx.CoqKeys(o.Keys)))
 		}
-		coq = append(coq, fmt.Sprintf("mkacase %s %s %s", vh.CoqBool(cs.Signing), vh.CoqBool(cs.Sleeping), vh.CoqList(steps)))
+		coq = append(coq, fmt.Sprintf("mkacase %s %s %s %s", vh.CoqZ(startNs), vh.CoqBool(cs.Signing), vh.CoqBool(cs.Sleeping), vh.CoqList(steps)))
 	}
 
 	if c.Replay != "" {
@@ -423,6 +425,19 @@ func TestVerif(t *testing.T) {
 			{Type: "sleep", From: 2, AdvanceMs: 250, Cmd: &scx.CmdSpec{Kind: "sleep", Origin: 10, ID: 2, Sig: "copied"}},
 			{Type: "peer-up", From: 4, AdvanceMs: 1000}}})
 
+		// 6. histories long enough for the flooder's own cleanup loop (every 150 s) to drop the seen entry (after 660 s),
+		//    also with a pass falling into the 100 ms pause of handleSleepCommand
+		do(&caseSpec{Signing: true, Sleeping: true, Why: "cleanup-loop", Frames: []frameSpec{
+			{Type: "wake", From: 3, AdvanceMs: 59000, Cmd: &scx.CmdSpec{Kind: "wake", Origin: 10, ID: ^uint64(0), Sig: "valid", TsDelta: 1}},
+			{Type: "peer-up", From: 4, AdvanceMs: 299000}, {Type: "peer-up", From: 11, AdvanceMs: 299000}, {Type: "peer-up", From: 11, AdvanceMs: 299000}}})
+		do(&caseSpec{Signing: true, Sleeping: true, Why: "cleanup-loop", Frames: []frameSpec{
+			{Type: "wake", From: 1, Cmd: &scx.CmdSpec{Kind: "wake", Origin: 10, ID: 1, Sig: "valid"}},
+			{Type: "sleep", From: 2, AdvanceMs: 749950, Cmd: &scx.CmdSpec{Kind: "sleep", Origin: 10, ID: 2, Sig: "valid"}},
+			{Type: "wake", From: 2, AdvanceMs: 1, Cmd: &scx.CmdSpec{Kind: "wake", Origin: 10, ID: 1, Sig: "valid", TsDelta: -750}}}})
+		do(&caseSpec{Signing: true, Why: "cleanup-loop", Frames: []frameSpec{
+			{Type: "sleep", From: 1, AdvanceMs: 150000, Cmd: &scx.CmdSpec{Kind: "sleep", Origin: 11, ID: 2, Sig: "valid"}},
+			{Type: "peer-up", From: 2, AdvanceMs: 660000}, {Type: "sleep", From: 3, AdvanceMs: 100, Cmd: &scx.CmdSpec{Kind: "sleep", Origin: 11, ID: 2, Sig: "valid", TsDelta: -810}}}})
+
 		n := c.N(500, 8000)
 		for i := 0; i < n; i++ {
 			r := c.Rand.Fork()
@@ -438,7 +453,7 @@ func TestVerif(t *testing.T) {
 				if strings.HasSuffix(typ, "wake") {
 					kind = "wake"
 				}
-				fs := frameSpec{Type: typ, From: 1 + r.Intn(3), AdvanceMs: int64(r.Pick(0, 0, 1, 250, 1000, 59000)), Cmd: genCmd(r, kind, 946684800)}
+				fs := frameSpec{Type: typ, From: 1 + r.Intn(3), AdvanceMs: int64(r.Pick(0, 0, 1, 250, 1000, 59000, 149950, 300000, 661000)), Cmd: genCmd(r, kind, 946684800)}
 				cs.Frames = append(cs.Frames, fs)
 			}
 			do(cs)
